@@ -8,6 +8,12 @@ package main
 // constant declarations from the AST and types every expression itself (go/types is not used).
 // The supported fragment is listed in the header comment of the generated file (lengthsHeader);
 // everything else is an error (die): the translation fails closed.
+//
+// Lookup tables (tableLookup): a refactoring may replace an if ladder by `tbl[i]` on a package-level table.
+// The table must be read-only (tables.go) and the index provably in range; to show the latter every integer
+// value carries an interval (irange) that is propagated through constants, conversions, arithmetic, local
+// variables (flow-sensitively: env.rng, merged at the join of an if, forgotten in loops) and `if e < k` guards
+// (env.bound).  The intervals are used for nothing else.
 
 import (
 	"fmt"
@@ -164,6 +170,109 @@ type lval struct {
 	lean string // Lean term: a variable name or a projection
 	t    *gtype
 	opt  bool // pointer whose Lean term is an `Option T` (may be nil); false: a plain `T`
+	// integers: an interval that is known to contain the value (nil: nothing known beyond the type).  Only
+	// used to show that an index of a lookup table is in range (tableLookup).
+	rng *irange
+}
+
+// irange: lo <= value <= hi
+type irange struct{ lo, hi int64 }
+
+// bounds beyond which the interval arithmetic gives up (keeps int64 arithmetic exact)
+const rangeLimit = int64(1) << 40
+
+// rangeOf: the interval of a value, from what has been computed for it and from its type
+func rangeOf(v lval) *irange {
+	if v.t.kind == "const" {
+		return &irange{v.t.val, v.t.val}
+	}
+	r := v.rng
+	if v.t.kind == "uint" && v.t.bits < 40 {
+		tm := int64(1)<<uint(v.t.bits) - 1
+		if r == nil || r.lo < 0 || r.hi > tm {
+			return &irange{0, tm}
+		}
+	}
+	return r
+}
+
+func hull(a, b *irange) *irange {
+	if a == nil || b == nil {
+		return nil
+	}
+	r := *a
+	if b.lo < r.lo {
+		r.lo = b.lo
+	}
+	if b.hi > r.hi {
+		r.hi = b.hi
+	}
+	return &r
+}
+
+// arithRange: the interval of `a op b` computed at Go type g from the intervals of the operands; nil if
+// nothing is known or the operation may wrap around
+func arithRange(op token.Token, a, b *irange, g *gtype) *irange {
+	nonneg := func(r *irange) bool { return r != nil && r.lo >= 0 && r.hi < rangeLimit }
+	small := func(r *irange) bool { return r != nil && r.lo > -rangeLimit && r.hi < rangeLimit }
+	pow2 := func(v int64) int64 { // the smallest 2^k - 1 that is >= v
+		r := int64(0)
+		for r < v {
+			r = r<<1 | 1
+		}
+		return r
+	}
+	var r *irange
+	switch op {
+	case token.AND: // x & y with y >= 0 is between 0 and y, whatever x is (two's complement)
+		switch {
+		case nonneg(a) && nonneg(b):
+			r = &irange{0, min(a.hi, b.hi)}
+		case nonneg(a):
+			r = &irange{0, a.hi}
+		case nonneg(b):
+			r = &irange{0, b.hi}
+		}
+	case token.OR, token.XOR:
+		if nonneg(a) && nonneg(b) {
+			r = &irange{0, pow2(max(a.hi, b.hi))}
+		}
+	case token.ADD:
+		if small(a) && small(b) {
+			r = &irange{a.lo + b.lo, a.hi + b.hi}
+		}
+	case token.SUB:
+		if small(a) && small(b) {
+			r = &irange{a.lo - b.hi, a.hi - b.lo}
+		}
+	case token.MUL:
+		if nonneg(a) && nonneg(b) && a.hi < 1<<20 && b.hi < 1<<20 {
+			r = &irange{a.lo * b.lo, a.hi * b.hi}
+		}
+	case token.SHR:
+		if nonneg(a) && nonneg(b) && b.lo == b.hi && b.lo < 62 {
+			r = &irange{a.lo >> uint(b.lo), a.hi >> uint(b.lo)}
+		}
+	case token.SHL:
+		if nonneg(a) && nonneg(b) && b.lo == b.hi && b.lo < 20 && a.hi < 1<<20 {
+			r = &irange{a.lo << uint(b.lo), a.hi << uint(b.lo)}
+		}
+	case token.QUO:
+		if nonneg(a) && nonneg(b) && b.lo == b.hi && b.lo > 0 {
+			r = &irange{a.lo / b.lo, a.hi / b.lo}
+		}
+	case token.REM:
+		if nonneg(a) && nonneg(b) && b.lo == b.hi && b.lo > 0 {
+			r = &irange{0, b.lo - 1}
+		}
+	}
+	if r != nil && g.kind == "uint" {
+		// wrapped around: the caller falls back to the range of the type
+		if r.lo < 0 || (g.bits < 40 && r.hi > int64(1)<<uint(g.bits)-1) {
+			return nil
+		}
+	}
+	return r
 }
 
 type lvar struct {
@@ -193,15 +302,55 @@ type env struct {
 	vars   map[string]*lvar // Go identifier -> variable
 	nonnil map[string]*lvar // rendered Go pointer expression known to be non-nil -> Lean variable holding the pointee
 	fields map[string]*lvar // rendered `recv.Field` that is assigned somewhere in the function -> state variable
+	// flow-sensitive facts for the index checks (tableLookup): the interval of the current value of a variable,
+	// and exclusive upper bounds of expressions (key: canon) that hold because of an enclosing `if e < k`
+	rng   map[*lvar]*irange
+	bound map[string]int64
 }
 
 func (e *env) clone() *env {
-	n := &env{vars: map[string]*lvar{}, nonnil: map[string]*lvar{}, fields: e.fields}
+	n := &env{vars: map[string]*lvar{}, nonnil: map[string]*lvar{}, fields: e.fields, rng: map[*lvar]*irange{}, bound: map[string]int64{}}
 	for k, v := range e.vars {
 		n.vars[k] = v
 	}
 	for k, v := range e.nonnil {
 		n.nonnil[k] = v
+	}
+	for k, v := range e.rng {
+		n.rng[k] = v
+	}
+	for k, v := range e.bound {
+		n.bound[k] = v
+	}
+	return n
+}
+
+// assigned: a clone of the environment after `name` (the variable v) has been assigned a value in r
+func (e *env) assigned(v *lvar, name string, r *irange) *env {
+	n := e.clone()
+	if r != nil {
+		n.rng[v] = r
+	} else {
+		delete(n.rng, v)
+	}
+	for k := range n.bound {
+		if mentions(k, name) {
+			delete(n.bound, k)
+		}
+	}
+	return n
+}
+
+// withBounds: a clone with additional upper bounds (the tighter one wins)
+func (e *env) withBounds(b map[string]int64) *env {
+	if len(b) == 0 {
+		return e
+	}
+	n := e.clone()
+	for k, v := range b {
+		if old, ok := n.bound[k]; !ok || v < old {
+			n.bound[k] = v
+		}
 	}
 	return n
 }
@@ -385,7 +534,7 @@ func (t *ltr) conv(pos token.Pos, v lval, to *gtype, explicit bool) lval {
 		if !fits(v.t.val, to) {
 			t.die(pos, "constant %d does not fit %s", v.t.val, to)
 		}
-		return lval{lean: fmt.Sprintf("%d", v.t.val), t: to}
+		return lval{lean: fmt.Sprintf("%d", v.t.val), t: to, rng: &irange{v.t.val, v.t.val}}
 	}
 	if v.t.same(to) {
 		return v
@@ -393,19 +542,24 @@ func (t *ltr) conv(pos token.Pos, v lval, to *gtype, explicit bool) lval {
 	if !explicit {
 		t.die(pos, "type mismatch: %s used as %s", v.t, to)
 	}
+	// the interval survives a conversion that does not change the value
+	keep := rangeOf(v)
+	if keep != nil && to.kind == "uint" && (keep.lo < 0 || (to.bits < 40 && keep.hi > int64(1)<<uint(to.bits)-1)) {
+		keep = nil
+	}
 	switch {
 	case v.t.kind == "int" && to.kind == "uint":
-		return lval{lean: "(" + v.lean + " % " + pow2(to.bits) + ").toNat", t: to}
+		return lval{lean: "(" + v.lean + " % " + pow2(to.bits) + ").toNat", t: to, rng: keep}
 	case v.t.kind == "uint" && to.kind == "int":
 		if v.t.bits >= 63 {
 			t.die(pos, "conversion %s -> int may overflow", v.t)
 		}
-		return lval{lean: "(" + v.lean + " : Int)", t: to}
+		return lval{lean: "(" + v.lean + " : Int)", t: to, rng: keep}
 	case v.t.kind == "uint" && to.kind == "uint":
 		if v.t.bits <= to.bits {
-			return lval{lean: v.lean, t: to}
+			return lval{lean: v.lean, t: to, rng: keep}
 		}
-		return lval{lean: "(" + v.lean + " % " + pow2(to.bits) + ")", t: to}
+		return lval{lean: "(" + v.lean + " % " + pow2(to.bits) + ")", t: to, rng: keep}
 	}
 	t.die(pos, "unsupported conversion %s -> %s", v.t, to)
 	return lval{}
@@ -422,6 +576,14 @@ func (t *ltr) arith(pos token.Pos, op token.Token, a, b string, g *gtype) string
 			return "(" + a + " - " + b + ")"
 		case token.MUL:
 			return "(" + a + " * " + b + ")"
+		// Lean's Int has no bitwise operators: through the 64-bit two's complement representation, which is
+		// what Go computes on (and the three operators cannot overflow)
+		case token.AND:
+			return "(BitVec.ofInt 64 (" + a + ") &&& BitVec.ofInt 64 (" + b + ")).toInt"
+		case token.OR:
+			return "(BitVec.ofInt 64 (" + a + ") ||| BitVec.ofInt 64 (" + b + ")).toInt"
+		case token.XOR:
+			return "(BitVec.ofInt 64 (" + a + ") ^^^ BitVec.ofInt 64 (" + b + ")).toInt"
 		}
 	case "uint":
 		m := pow2(g.bits)
@@ -462,10 +624,11 @@ func (t *ltr) shift(pos token.Pos, op token.Token, a lval, k lval) lval {
 	default:
 		t.die(pos, "shift count of type %s", k.t)
 	}
+	r := arithRange(op, rangeOf(a), rangeOf(k), a.t)
 	if op == token.SHL {
-		return lval{lean: "((" + a.lean + " <<< " + cnt + ") % " + pow2(a.t.bits) + ")", t: a.t}
+		return lval{lean: "((" + a.lean + " <<< " + cnt + ") % " + pow2(a.t.bits) + ")", t: a.t, rng: r}
 	}
-	return lval{lean: "(" + a.lean + " >>> " + cnt + ")", t: a.t}
+	return lval{lean: "(" + a.lean + " >>> " + cnt + ")", t: a.t, rng: r}
 }
 
 // divmod: a / c, a % c at the unsigned type of a, for a non-zero constant c (Go panics on a zero
@@ -478,7 +641,7 @@ func (t *ltr) divmod(pos token.Pos, op token.Token, a lval, c lval) lval {
 	if op == token.REM {
 		o = "%"
 	}
-	return lval{lean: fmt.Sprintf("(%s %s %d)", a.lean, o, c.t.val), t: a.t}
+	return lval{lean: fmt.Sprintf("(%s %s %d)", a.lean, o, c.t.val), t: a.t, rng: arithRange(op, rangeOf(a), rangeOf(c), a.t)}
 }
 
 func constArith(t *ltr, pos token.Pos, op token.Token, a, b int64) int64 {
@@ -518,6 +681,20 @@ func constArith(t *ltr, pos token.Pos, op token.Token, a, b int64) int64 {
 
 // ex: value expression
 func (t *ltr) ex(e ast.Expr, en *env) lval {
+	v := t.exRaw(e, en)
+	// an enclosing `if e < k` (an upper bound only: that the value is not negative must come from its type or
+	// from what is known about it otherwise)
+	if len(en.bound) > 0 && (v.t.kind == "uint" || v.t.kind == "int") {
+		if b, ok := en.bound[canon(e)]; ok {
+			if r := rangeOf(v); r != nil && r.lo >= 0 && b-1 < r.hi {
+				v.rng = &irange{r.lo, b - 1}
+			}
+		}
+	}
+	return v
+}
+
+func (t *ltr) exRaw(e ast.Expr, en *env) lval {
 	// a pointer expression already matched against nil
 	if v, ok := en.nonnil[render(e)]; ok {
 		return lval{lean: v.lean, t: v.t, opt: false}
@@ -536,7 +713,7 @@ func (t *ltr) ex(e ast.Expr, en *env) lval {
 		return lval{t: &gtype{kind: "const", val: v}}
 	case *ast.Ident:
 		if v, ok := en.vars[e.Name]; ok {
-			return lval{lean: v.lean, t: v.t, opt: v.opt}
+			return lval{lean: v.lean, t: v.t, opt: v.opt, rng: en.rng[v]}
 		}
 		if e.Name == "nil" {
 			return lval{t: &gtype{kind: "nil"}}
@@ -561,9 +738,11 @@ func (t *ltr) ex(e ast.Expr, en *env) lval {
 		t.die(e.Pos(), "unknown identifier %s", e.Name)
 	case *ast.SelectorExpr:
 		if v, ok := en.fields[render(e)]; ok {
-			return lval{lean: v.lean, t: v.t}
+			return lval{lean: v.lean, t: v.t, rng: en.rng[v]}
 		}
 		return t.fieldRead(e, en)
+	case *ast.IndexExpr:
+		return t.tableLookup(e, en)
 	case *ast.StarExpr:
 		x := t.ex(e.X, en)
 		if x.t.kind != "ptr" {
@@ -594,8 +773,9 @@ func (t *ltr) ex(e ast.Expr, en *env) lval {
 			if g.kind != "int" && g.kind != "uint" {
 				t.die(e.Pos(), "arithmetic on %s", g)
 			}
+			r := arithRange(e.Op, rangeOf(a), rangeOf(b), g)
 			a, b = t.conv(e.X.Pos(), a, g, false), t.conv(e.Y.Pos(), b, g, false)
-			return lval{lean: t.arith(e.Pos(), e.Op, a.lean, b.lean, g), t: g}
+			return lval{lean: t.arith(e.Pos(), e.Op, a.lean, b.lean, g), t: g, rng: r}
 		case token.SHL, token.SHR, token.QUO, token.REM:
 			a, b := t.ex(e.X, en), t.ex(e.Y, en)
 			if a.t.kind == "const" && b.t.kind == "const" {
@@ -665,6 +845,13 @@ func (t *ltr) call(e *ast.CallExpr, en *env) lval {
 	case "len":
 		if len(e.Args) != 1 {
 			t.die(e.Pos(), "len arity")
+		}
+		if tbl := t.lookupTable(e.Args[0], en); tbl != nil { // the length of a lookup table: a constant
+			n := len(tbl.elems)
+			if tbl.kind == "map" {
+				n = len(tbl.keys)
+			}
+			return lval{t: &gtype{kind: "const", val: int64(n)}}
 		}
 		x := t.ex(e.Args[0], en)
 		if x.t.kind != "slice" {
@@ -849,6 +1036,168 @@ func nilTest(e ast.Expr) (x ast.Expr, thenIsNil bool, ok bool) {
 	return nil, false, false
 }
 
+// guards collects, for the case that the condition is true (holds=true) resp. false, the exclusive upper
+// bounds `e < k` that follow from it: comparisons of an expression with a constant, under !, && and ||.
+// `int(e) < k` for an unsigned e also bounds e.
+func (t *ltr) guards(c ast.Expr, en *env, holds bool, into map[string]int64) {
+	switch c := c.(type) {
+	case *ast.ParenExpr:
+		t.guards(c.X, en, holds, into)
+	case *ast.UnaryExpr:
+		if c.Op == token.NOT {
+			t.guards(c.X, en, !holds, into)
+		}
+	case *ast.BinaryExpr:
+		switch c.Op {
+		case token.LAND:
+			if holds { // both conjuncts hold
+				t.guards(c.X, en, true, into)
+				t.guards(c.Y, en, true, into)
+			}
+		case token.LOR:
+			if !holds { // neither disjunct holds
+				t.guards(c.X, en, false, into)
+				t.guards(c.Y, en, false, into)
+			}
+		case token.LSS, token.LEQ, token.GTR, token.GEQ:
+			op, x, y := c.Op, c.X, c.Y
+			if !holds { // !(x < y) is x >= y, …
+				op = map[token.Token]token.Token{token.LSS: token.GEQ, token.LEQ: token.GTR, token.GTR: token.LEQ, token.GEQ: token.LSS}[op]
+			}
+			if op == token.GTR || op == token.GEQ { // k > x is x < k
+				x, y = y, x
+				op = map[token.Token]token.Token{token.GTR: token.LSS, token.GEQ: token.LEQ}[op]
+			}
+			k := t.ex(y, en)
+			if k.t.kind != "const" || k.t.val >= rangeLimit {
+				return
+			}
+			b := k.t.val
+			if op == token.LEQ {
+				b++
+			}
+			note := func(e ast.Expr) {
+				key := canon(e)
+				if old, ok := into[key]; !ok || b < old {
+					into[key] = b
+				}
+			}
+			note(x)
+			for {
+				p, ok := x.(*ast.ParenExpr)
+				if !ok {
+					break
+				}
+				x = p.X
+			}
+			if ce, ok := x.(*ast.CallExpr); ok && len(ce.Args) == 1 {
+				if id, ok := ce.Fun.(*ast.Ident); ok && id.Name == "int" {
+					if _, shadow := en.vars["int"]; !shadow && t.ex(ce.Args[0], en).t.kind == "uint" {
+						note(ce.Args[0])
+					}
+				}
+			}
+		}
+	}
+}
+
+// lookupTable: e names a package-level variable (not hidden by a local variable): the lookup table (tables.go)
+func (t *ltr) lookupTable(e ast.Expr, en *env) *constTable {
+	id, ok := e.(*ast.Ident)
+	if !ok {
+		return nil
+	}
+	if _, local := en.vars[id.Name]; local {
+		return nil
+	}
+	tbl, ok := t.p.table(e.Pos(), id.Name)
+	if !ok {
+		return nil
+	}
+	return tbl
+}
+
+// tableLookup: tbl[i] on a lookup table.
+//
+//	array, slice: if i = 0 then e0 else if i = 1 then e1 else … else e(n-1)
+//	map:          if i = k1 then v1 else if i = k2 then v2 else … else <zero value>
+//
+// An index out of range is a panic in Go, which the generated functions cannot express.  The chain for an array
+// or slice is therefore only emitted if the interval analysis (irange: types, constants, arithmetic, the
+// values assigned on all paths, enclosing `if i < k`) shows 0 <= i < n; otherwise the translation fails.
+func (t *ltr) tableLookup(e *ast.IndexExpr, en *env) lval {
+	tbl := t.lookupTable(e.X, en)
+	if tbl == nil {
+		t.die(e.Pos(), "unsupported expression %s (only package-level lookup tables can be indexed)", render(e))
+	}
+	et := t.gtypeOf(tbl.elemType)
+	if et.kind != "int" && et.kind != "uint" && et.kind != "bool" {
+		t.die(e.Pos(), "lookup table %s: unsupported element type %s", tbl.name, et)
+	}
+	consts := &env{vars: map[string]*lvar{}, nonnil: map[string]*lvar{}, fields: map[string]*lvar{}} // elements are constant expressions
+	var all *irange
+	first := true
+	elem := func(x ast.Expr) string {
+		v := lval{t: &gtype{kind: "const", val: 0}}
+		switch {
+		case x == nil && et.kind == "bool":
+			v = lval{lean: "false", t: tBool}
+		case x != nil:
+			v = t.ex(x, consts)
+		}
+		if et.kind == "bool" {
+			if v.t.kind != "bool" {
+				t.die(e.Pos(), "lookup table %s: element %s is not a bool", tbl.name, render(x))
+			}
+			return v.lean
+		}
+		v = t.conv(e.Pos(), v, et, false)
+		if first {
+			all, first = rangeOf(v), false
+		} else {
+			all = hull(all, rangeOf(v))
+		}
+		return v.lean
+	}
+	i := t.ex(e.Index, en)
+	if i.t.kind != "const" && i.t.kind != "int" && i.t.kind != "uint" {
+		t.die(e.Pos(), "%s: index of type %s", render(e), i.t)
+	}
+	if tbl.kind == "map" {
+		if i.t.kind == "const" {
+			t.die(e.Pos(), "%s: constant key", render(e))
+		}
+		s := elem(nil)
+		for k := len(tbl.keys) - 1; k >= 0; k-- {
+			key := t.conv(e.Pos(), lval{t: &gtype{kind: "const", val: tbl.keys[k]}}, i.t, false)
+			s = "if " + i.lean + " = " + key.lean + " then " + elem(tbl.vals[k]) + " else " + s
+		}
+		return lval{lean: "(" + s + ")", t: et, rng: all}
+	}
+	n := int64(len(tbl.elems))
+	if i.t.kind == "const" {
+		if i.t.val < 0 || i.t.val >= n {
+			t.die(e.Pos(), "%s: index out of range", render(e))
+		}
+		s := elem(tbl.elems[i.t.val])
+		return lval{lean: s, t: et, rng: all}
+	}
+	if r := rangeOf(i); r == nil || r.lo < 0 || r.hi >= n {
+		t.die(e.Pos(), "%s: cannot show that the index is in range (0 <= index < %d; out of range is a panic)", render(e), n)
+	}
+	idx := i.lean
+	bind := ""
+	if len(idx) > 40 { // name a long index term once
+		bind = "let i_ : " + t.leanType(e.Pos(), i.t, false) + " := " + idx + "; "
+		idx = "i_"
+	}
+	s := elem(tbl.elems[n-1])
+	for k := n - 2; k >= 0; k-- {
+		s = fmt.Sprintf("if %s = %d then %s else %s", idx, k, elem(tbl.elems[k]), s)
+	}
+	return lval{lean: "(" + bind + s + ")", t: et, rng: all}
+}
+
 // ---- statements ----
 
 // assigned: variables / receiver fields of the environment that a statement list assigns
@@ -913,6 +1262,14 @@ func (t *ltr) assigned(list []ast.Stmt, en *env, into map[*lvar]bool) {
 		case *ast.RangeStmt:
 			inner := map[*lvar]bool{}
 			t.assigned(s.Body.List, en, inner)
+			for v := range inner {
+				if !isShadowed(local, en, v) {
+					into[v] = true
+				}
+			}
+		case *ast.BlockStmt:
+			inner := map[*lvar]bool{}
+			t.assigned(s.List, en, inner)
 			for v := range inner {
 				if !isShadowed(local, en, v) {
 					into[v] = true
@@ -1056,6 +1413,17 @@ func (t *ltr) block(list []ast.Stmt, en *env, end func(en *env) string) string {
 
 	case *ast.RangeStmt:
 		return t.rangeStmt(s, en, rest, end)
+
+	case *ast.BlockStmt:
+		// a nested scope: what it declares is not visible afterwards
+		return t.block(s.List, en.clone(), func(inner *env) string {
+			after := inner.clone()
+			after.vars = map[string]*lvar{}
+			for k, v := range en.vars {
+				after.vars[k] = v
+			}
+			return t.block(rest, after, end)
+		})
 	}
 	t.die(list[0].Pos(), "unsupported statement %T", list[0])
 	return ""
@@ -1095,7 +1463,17 @@ func (t *ltr) assign(pos token.Pos, lhs, rhs ast.Expr, define bool, en *env, res
 	if target.t.kind != "int" && target.t.kind != "uint" && target.t.kind != "bool" {
 		t.die(pos, "assignment to a variable of type %s", target.t)
 	}
+	r := rangeOf(v)
 	v = t.conv(pos, v, target.t, false)
+	root := lhs
+	for {
+		if se, ok := root.(*ast.SelectorExpr); ok {
+			root = se.X
+		} else {
+			break
+		}
+	}
+	en2 = en2.assigned(target, render(root), r)
 	return "let " + target.lean + " : " + t.leanType(pos, target.t, false) + " := " + v.lean + "\n" + t.block(rest, en2, end)
 }
 
@@ -1126,6 +1504,7 @@ func (t *ltr) assignTuple(s *ast.AssignStmt, en *env, rest []ast.Stmt, end func(
 			if target, ok = en.vars[id.Name]; !ok || !target.t.same(g) {
 				t.die(s.Pos(), "unsupported assignment %s", render(s))
 			}
+			en2 = en2.assigned(target, id.Name, nil)
 		}
 		out += "let " + target.lean + " : " + t.leanType(s.Pos(), g, false) + " := " + proj + "\n"
 	}
@@ -1214,6 +1593,10 @@ func (t *ltr) ifStmt(s *ast.IfStmt, en *env, rest []ast.Stmt, end func(*env) str
 		}
 	} else {
 		c := t.cond(s.Cond, en)
+		pos, neg := map[string]int64{}, map[string]int64{}
+		t.guards(s.Cond, en, true, pos)
+		t.guards(s.Cond, en, false, neg)
+		enT, enE = en.withBounds(pos), en.withBounds(neg)
 		head = func(a, b string) string {
 			if strings.HasPrefix(b, "if ") { // else-if chain: no extra indentation
 				return "if " + c + " then\n" + ind(a) + "\nelse " + b
@@ -1243,10 +1626,15 @@ func (t *ltr) ifStmt(s *ast.IfStmt, en *env, rest []ast.Stmt, end func(*env) str
 		}
 		vs := sortedVars(m)
 		term, typ := t.pack(s.Pos(), vs)
-		fin := func(*env) string { return term }
-		a := t.block(thenL, enT, fin)
-		b := t.block(els, enE, fin)
-		return letMerged(term, typ, "("+head(a, b)+")", t.block(rest, en, end))
+		var finT, finE *env
+		a := t.block(thenL, enT, func(e *env) string { finT = e; return term })
+		b := t.block(els, enE, func(e *env) string { finE = e; return term })
+		// after the statement: what both branches agree on
+		en3 := en.clone()
+		for _, v := range vs {
+			en3 = en3.assigned(v, v.lean, hull(finT.rng[v], finE.rng[v]))
+		}
+		return letMerged(term, typ, "("+head(a, b)+")", t.block(rest, en3, end))
 	}
 	t.die(s.Pos(), "unsupported mixture of returning and non-returning branches")
 	return ""
@@ -1334,6 +1722,19 @@ func (t *ltr) rangeStmt(s *ast.RangeStmt, en *env, rest []ast.Stmt, end func(*en
 		}
 		return true
 	})
+	if elems, ok := t.structArray(s.X, en); ok {
+		// a fixed number of struct values: the loop is unrolled, one block per element with item.field replaced
+		// by the element's expression for the field
+		var unrolled []ast.Stmt
+		for _, el := range elems {
+			var body []ast.Stmt
+			for _, st := range s.Body.List {
+				body = append(body, t.rewriteStmt(st, item.Name, el))
+			}
+			unrolled = append(unrolled, &ast.BlockStmt{Lbrace: s.Pos(), List: body})
+		}
+		return t.block(append(unrolled, rest...), en, end)
+	}
 	xs := t.ex(s.X, en)
 	if xs.t.kind != "slice" {
 		t.die(s.Pos(), "range over %s", xs.t)
@@ -1345,6 +1746,10 @@ func (t *ltr) rangeStmt(s *ast.RangeStmt, en *env, rest []ast.Stmt, end func(*en
 	}
 	vs := sortedVars(m)
 	term, typ := t.pack(s.Pos(), vs)
+	// nothing is known about the loop-carried variables, neither inside the loop nor after it
+	for _, v := range vs {
+		en = en.assigned(v, v.lean, nil)
+	}
 	en2 := en.clone()
 	et := xs.t.elem
 	iv := t.newVar(leanIdent(t, s.Pos(), item.Name), et, false) // elements of []*T are non-nil in the model
@@ -1357,6 +1762,233 @@ func (t *ltr) rangeStmt(s *ast.RangeStmt, en *env, rest []ast.Stmt, end func(*en
 	binder := "(" + term + " : " + typ + ")"
 	val := xs.lean + ".foldl (fun " + binder + " (" + iv.lean + " : " + elT + ") =>\n" + ind(body) + ") " + term
 	return letMerged(term, typ, val, t.block(rest, en, end))
+}
+
+// maximal length of an array of structs over which a loop is unrolled
+const maxUnroll = 16
+
+// structArray recognises an expression that denotes a fixed-size array of struct values known element by
+// element: a call `f(args)` of a function of the package (no receiver) whose body is `return [N]T{…}`, or a
+// package-level lookup table `var x = [N]T{…}`, T a struct type, N a constant of at most maxUnroll.  The result
+// gives, per element, the expression of every field (parameters replaced by the arguments of the call).
+func (t *ltr) structArray(x ast.Expr, en *env) ([]map[string]ast.Expr, bool) {
+	var lit *ast.CompositeLit
+	sub := map[string]ast.Expr{}
+	switch x := x.(type) {
+	case *ast.Ident:
+		if _, local := en.vars[x.Name]; local {
+			return nil, false
+		}
+		v, ok := t.p.varVal[x.Name].(*ast.CompositeLit)
+		if !ok {
+			return nil, false
+		}
+		if at, ok := v.Type.(*ast.ArrayType); !ok || at.Len == nil || t.structFields(at.Elt) == nil {
+			return nil, false
+		}
+		if _, ok := t.p.table(x.Pos(), x.Name); !ok { // fatal if the variable is written somewhere
+			return nil, false
+		}
+		lit = v
+	case *ast.CallExpr:
+		id, ok := x.Fun.(*ast.Ident)
+		if !ok {
+			return nil, false
+		}
+		if _, local := en.vars[id.Name]; local {
+			return nil, false
+		}
+		fd, ok := t.p.funcs[id.Name]
+		if !ok || fd.Recv != nil || fd.Body == nil || len(fd.Body.List) != 1 || fd.Type.Results == nil || len(fd.Type.Results.List) != 1 {
+			return nil, false
+		}
+		if at, ok := fd.Type.Results.List[0].Type.(*ast.ArrayType); !ok || at.Len == nil || t.structFields(at.Elt) == nil {
+			return nil, false
+		}
+		rs, ok := fd.Body.List[0].(*ast.ReturnStmt)
+		if !ok || len(rs.Results) != 1 {
+			t.die(x.Pos(), "%s: the body is not a single return of an array literal", id.Name)
+		}
+		if lit, ok = rs.Results[0].(*ast.CompositeLit); !ok {
+			t.die(x.Pos(), "%s: the body is not a single return of an array literal", id.Name)
+		}
+		k := 0
+		for _, f := range fd.Type.Params.List {
+			for _, n := range f.Names {
+				if k >= len(x.Args) {
+					t.die(x.Pos(), "arity of %s", id.Name)
+				}
+				sub[n.Name] = x.Args[k]
+				k++
+			}
+		}
+		if k != len(x.Args) {
+			t.die(x.Pos(), "arity of %s", id.Name)
+		}
+	default:
+		return nil, false
+	}
+	at, ok := lit.Type.(*ast.ArrayType)
+	if !ok || at.Len == nil {
+		t.die(x.Pos(), "%s: not an array literal", render(x))
+	}
+	fields := t.structFields(at.Elt)
+	n := int64(len(lit.Elts))
+	if _, dots := at.Len.(*ast.Ellipsis); !dots {
+		if n, ok = t.p.evalConst(at.Len, 0); !ok {
+			t.die(x.Pos(), "%s: the array length is not a constant", render(x))
+		}
+	}
+	if n != int64(len(lit.Elts)) || n > maxUnroll {
+		t.die(x.Pos(), "%s: %d elements for an array of length %d (every element must be listed; at most %d)", render(x), len(lit.Elts), n, maxUnroll)
+	}
+	var out []map[string]ast.Expr
+	for _, el := range lit.Elts {
+		cl, ok := el.(*ast.CompositeLit)
+		if !ok {
+			t.die(el.Pos(), "%s: element %s is not a struct literal without index", render(x), render(el))
+		}
+		m := map[string]ast.Expr{}
+		for i, fe := range cl.Elts {
+			name, val := "", fe
+			if kv, ok := fe.(*ast.KeyValueExpr); ok {
+				kid, ok := kv.Key.(*ast.Ident)
+				if !ok {
+					t.die(fe.Pos(), "unsupported struct literal %s", render(cl))
+				}
+				name, val = kid.Name, kv.Value
+			} else {
+				if i >= len(fields) || len(cl.Elts) != len(fields) {
+					t.die(fe.Pos(), "unsupported struct literal %s", render(cl))
+				}
+				name = fields[i]
+			}
+			if _, dup := m[name]; dup {
+				t.die(fe.Pos(), "unsupported struct literal %s", render(cl))
+			}
+			m[name] = substIdents(val, sub)
+		}
+		for _, f := range fields { // a field that is not listed has the zero value: not supported
+			if _, ok := m[f]; !ok {
+				t.die(cl.Pos(), "struct literal %s does not give the field %s", render(cl), f)
+			}
+		}
+		out = append(out, m)
+	}
+	return out, true
+}
+
+// structFields: the field names of a struct type (a struct type of the package or a struct type literal)
+func (t *ltr) structFields(e ast.Expr) []string {
+	if id, ok := e.(*ast.Ident); ok {
+		e = t.p.types[id.Name]
+	}
+	st, ok := e.(*ast.StructType)
+	if !ok {
+		return nil
+	}
+	names := []string{}
+	for _, f := range st.Fields.List {
+		for _, n := range f.Names {
+			names = append(names, n.Name)
+		}
+	}
+	return names
+}
+
+// rewriteStmt copies a statement of an unrolled loop body, replacing item.f by fields[f]
+func (t *ltr) rewriteStmt(s ast.Stmt, item string, fields map[string]ast.Expr) ast.Stmt {
+	var ex func(e ast.Expr) ast.Expr
+	ex = func(e ast.Expr) ast.Expr {
+		switch e := e.(type) {
+		case nil:
+			return nil
+		case *ast.Ident:
+			if e.Name == item {
+				t.die(e.Pos(), "the loop variable %s is used other than through its fields", item)
+			}
+			return e
+		case *ast.BasicLit:
+			return e
+		case *ast.ParenExpr:
+			return &ast.ParenExpr{Lparen: e.Lparen, X: ex(e.X), Rparen: e.Rparen}
+		case *ast.SelectorExpr:
+			if id, ok := e.X.(*ast.Ident); ok && id.Name == item {
+				v, ok := fields[e.Sel.Name]
+				if !ok {
+					t.die(e.Pos(), "unknown field %s", render(e))
+				}
+				return &ast.ParenExpr{X: v}
+			}
+			return &ast.SelectorExpr{X: ex(e.X), Sel: e.Sel}
+		case *ast.IndexExpr:
+			return &ast.IndexExpr{X: ex(e.X), Lbrack: e.Lbrack, Index: ex(e.Index), Rbrack: e.Rbrack}
+		case *ast.StarExpr:
+			return &ast.StarExpr{Star: e.Star, X: ex(e.X)}
+		case *ast.UnaryExpr:
+			return &ast.UnaryExpr{OpPos: e.OpPos, Op: e.Op, X: ex(e.X)}
+		case *ast.BinaryExpr:
+			return &ast.BinaryExpr{X: ex(e.X), OpPos: e.OpPos, Op: e.Op, Y: ex(e.Y)}
+		case *ast.CallExpr:
+			c := &ast.CallExpr{Fun: ex(e.Fun), Lparen: e.Lparen, Rparen: e.Rparen}
+			for _, a := range e.Args {
+				c.Args = append(c.Args, ex(a))
+			}
+			return c
+		}
+		t.die(e.Pos(), "unsupported expression %s in an unrolled loop", render(e))
+		return nil
+	}
+	exs := func(l []ast.Expr) []ast.Expr {
+		var out []ast.Expr
+		for _, e := range l {
+			out = append(out, ex(e))
+		}
+		return out
+	}
+	var st func(s ast.Stmt) ast.Stmt
+	sts := func(l []ast.Stmt) []ast.Stmt {
+		var out []ast.Stmt
+		for _, s := range l {
+			out = append(out, st(s))
+		}
+		return out
+	}
+	st = func(s ast.Stmt) ast.Stmt {
+		switch s := s.(type) {
+		case nil:
+			return nil
+		case *ast.EmptyStmt:
+			return s
+		case *ast.AssignStmt:
+			for _, l := range s.Lhs {
+				if id, ok := l.(*ast.Ident); ok && id.Name == item {
+					t.die(s.Pos(), "the loop variable %s is assigned", item)
+				}
+			}
+			return &ast.AssignStmt{Lhs: exs(s.Lhs), TokPos: s.TokPos, Tok: s.Tok, Rhs: exs(s.Rhs)}
+		case *ast.IncDecStmt:
+			return &ast.IncDecStmt{X: ex(s.X), TokPos: s.TokPos, Tok: s.Tok}
+		case *ast.BlockStmt:
+			return &ast.BlockStmt{Lbrace: s.Lbrace, List: sts(s.List), Rbrace: s.Rbrace}
+		case *ast.IfStmt:
+			n := &ast.IfStmt{If: s.If, Init: st(s.Init), Cond: ex(s.Cond), Body: &ast.BlockStmt{Lbrace: s.Body.Lbrace, List: sts(s.Body.List)}}
+			if s.Else != nil {
+				n.Else = st(s.Else)
+			}
+			return n
+		case *ast.SwitchStmt:
+			n := &ast.SwitchStmt{Switch: s.Switch, Init: st(s.Init), Tag: ex(s.Tag), Body: &ast.BlockStmt{Lbrace: s.Body.Lbrace}}
+			for _, c := range s.Body.List {
+				cc := c.(*ast.CaseClause)
+				n.Body.List = append(n.Body.List, &ast.CaseClause{Case: cc.Case, List: exs(cc.List), Body: sts(cc.Body)})
+			}
+			return n
+		}
+		t.die(s.Pos(), "unsupported statement %T in an unrolled loop", s)
+		return nil
+	}
+	return st(s)
 }
 
 // ---- functions ----
@@ -1566,6 +2198,16 @@ Translation rules (anything outside this fragment makes the translator exit non-
 * f(x) / x.m() for a listed function ↔ (f x) / (T_m x); for any other function or method of the package the callee is
   translated by the same rules and INLINED as ((fun (p : T) … => body) x): the file defines the listed functions only,
   whatever helper functions the Go code is split into.
+* &, |, ^ on int        ↔ (BitVec.ofInt 64 a ||| BitVec.ofInt 64 b).toInt etc.: Go's 64-bit two's complement (Lean's Int has no
+  bitwise operators).
+* tbl[i] for a package-level variable tbl that is NEVER WRITTEN anywhere in the package (extract/tables.go, the analysis behind
+  the fact packageVarsWritten) and whose value is an array / slice / map literal of constants ↔ if i = 0 then e0 else if i = 1
+  then e1 else … else e(n-1);  len(tbl) ↔ the constant n.  An index out of range is a Go panic, which these functions cannot
+  express: the chain is only emitted when the translator's interval analysis (types, constants, +, -, *, &, |, ^, >>, %,
+  the values assigned on all paths, enclosing guards if i < k) shows 0 ≤ i < n; otherwise the translation fails.
+  A map gives … else <zero value> (a missing key is not a panic).
+* for _, f := range g(x) { body } where g is return [N]T{{a1, b1}, …} (T a struct, N ≤ 16, also a package-level table of
+  structs) ↔ the body N times, f.field replaced by the element's expression; { … } ↔ a nested scope.
 -/
 import Astits.Model.Mux
 set_option linter.unusedVariables false
